@@ -11,14 +11,16 @@ PROPS_V = "Props/C01.v"
 # functions the hand-written model of this property was written against (normalised source stored under harness/corr/guards/;
 # a difference is reported as broken-correspondence: the theorems then no longer speak about the current source)
 SOURCE_GUARDS = [
-    ("esr/generation/generator.py", "check_tree"),
     ("esr/generation/generator.py", "get_allowed_shapes"),
     ("esr/generation/generator.py", "shape_to_functions"),
     ("esr/generation/generator.py", "generate_equations"),
 ]
 
-TRANSLATORS = []
+TRANSLATORS = ["ctree"]
 TRUSTED = [
+    "translator harness/translate/ctree.py: generator.check_tree is regenerated into Gen/GenShapes.v on every run (checked attribute stores, fuelled for/while loops "
+    "left with break, possibly-unbound variables as options) and proved equal to the hand model on every string (C01_code_check_tree_is_model); the check_tree "
+    "theorems are restated on the generated function (C01_code_check_tree_iff / _prune_sound / _arrays / _crash)",
     "Coq 8.16.1 kernel + vm_compute (no native_compute)",
     "Print Assumptions: all C01 theorems closed under the global context (no axioms)",
     "hand-written Gallina models coq/Model/Shapes.v (check_tree with parent/left/right arrays, get_allowed_shapes with "
